@@ -8,7 +8,7 @@
 From Coq Require Import List NArith ZArith Bool Arith.
 From Verif Require Import Harness.
 From VerifModel Require Import C25.
-From VerifProof Require Import C25Proofs C25Record C25Stream.
+From VerifProof Require Import C25Proofs C25Record C25Stream C25Tamper.
 Import ListNotations.
 Local Open Scope Z_scope.
 
@@ -98,6 +98,78 @@ Theorem C25_stream_intact :
 Proof. exact stream_intact. Qed.
 Print Assumptions C25_stream_intact.
 
+(* the sequence number is bound into what every record authenticates: the
+   authenticator a sender produces in state st (the MAC input, or the AEAD
+   nonce / additional data) and the one a receiver checks in state st both
+   carry seqno st, and seq8 is injective below 2^64 *)
+Theorem C25_seq_bound_sender :
+  forall seal st hdr payload a,
+    (seqno st < two64)%N -> sender_binds seal st hdr payload a -> auth_seq (version st) a = seqno st.
+Proof. exact sender_seq. Qed.
+Print Assumptions C25_seq_bound_sender.
+
+Theorem C25_seq_bound_receiver :
+  forall aopen st pt typ a,
+    (seqno st < two64)%N -> receiver_binds aopen st pt typ a -> auth_seq (version st) a = seqno st.
+Proof. exact receiver_seq. Qed.
+Print Assumptions C25_seq_bound_receiver.
+
+Theorem C25_encrypt_authenticates :
+  forall stream cbc_enc seal mac BS MS OVH st hdr payload rnd rec st' calls,
+    wf_state BS MS OVH st ->
+    half_encrypt stream cbc_enc seal mac st hdr payload rnd = Ok (rec, st', calls) ->
+    exists a, flat_map (enc_auth seal) calls = [a] /\ sender_binds seal st hdr payload a.
+Proof. exact enc_auth_inv. Qed.
+Print Assumptions C25_encrypt_authenticates.
+
+(* every record the receiver accepts is either an unprotected TLS 1.3
+   change_cipher_spec (state unchanged) or passed exactly one authenticator
+   check that carries the receiver's sequence number, which then advances *)
+Theorem C25_decrypt_authenticates :
+  forall stream cbc_dec aopen mac BS MS OVH st rec pt typ st' calls,
+    wf_state BS MS OVH st ->
+    half_decrypt stream cbc_dec aopen mac st rec = Ok (pt, typ, st', calls) ->
+    (version st = VersionTLS13 /\ typ = 20%N /\ calls = [] /\ st' = st) \/
+    (inc_seq (seqno st) = Some (seqno st') /\ knd st' = knd st /\ version st' = version st /\
+     exists a, flat_map dec_auth calls = [a] /\ receiver_binds aopen st pt typ a).
+Proof. exact dec_accept_inv. Qed.
+Print Assumptions C25_decrypt_authenticates.
+
+(* "or not at all": the sender emits the chain S from state st0; the wire is
+   then arbitrary (records modified, dropped, duplicated, reordered, injected).
+   Under the explicit no-forgery premise on this run (every authenticator the
+   receiver accepts is one the sender produced), the records the receiver
+   delivers before its first (permanent) error are a prefix of the records
+   sent; the only primitive law used is open (seal p) = p. *)
+Theorem C25_tamper_detected :
+  forall (stream : Z -> bytes -> bytes) (cbc_enc cbc_dec : bytes -> bytes -> bytes)
+         (seal : bytes -> bytes -> bytes -> bytes) (aopen : bytes -> bytes -> bytes -> option bytes)
+         (mac : bytes -> bytes) (BS MS OVH : Z),
+  (forall n ad p, aopen n ad (seal n ad p) = Some p) ->
+  forall st0 S st_end wire,
+    wf_state BS MS OVH st0 -> (seqno st0 < two64)%N ->
+    sent_chain stream cbc_enc seal mac st0 S st_end ->
+    (forall a, In a (flat_map dec_auth (all_calls (recv stream cbc_dec aopen mac st0 wire))) ->
+               In a (flat_map (enc_auth seal) (all_calls S))) ->
+    is_prefix (map content (authenticated (recv stream cbc_dec aopen mac st0 wire))) (map content S).
+Proof. exact tamper_detected. Qed.
+Print Assumptions C25_tamper_detected.
+
+(* ... and the application data delivered is a prefix of the application data sent *)
+Theorem C25_tamper_app_data :
+  forall (stream : Z -> bytes -> bytes) (cbc_enc cbc_dec : bytes -> bytes -> bytes)
+         (seal : bytes -> bytes -> bytes -> bytes) (aopen : bytes -> bytes -> bytes -> option bytes)
+         (mac : bytes -> bytes) (BS MS OVH : Z),
+  (forall n ad p, aopen n ad (seal n ad p) = Some p) ->
+  forall st0 S st_end wire,
+    wf_state BS MS OVH st0 -> (seqno st0 < two64)%N ->
+    sent_chain stream cbc_enc seal mac st0 S st_end ->
+    (forall a, In a (flat_map dec_auth (all_calls (recv stream cbc_dec aopen mac st0 wire))) ->
+               In a (flat_map (enc_auth seal) (all_calls S))) ->
+    is_prefix (app_data (recv stream cbc_dec aopen mac st0 wire)) (app_data S).
+Proof. exact tamper_app_data. Qed.
+Print Assumptions C25_tamper_app_data.
+
 (* non-vacuity: the laws have a model, and the hypotheses of the stream theorem
    are met by a concrete run whose result is the data *)
 Theorem C25_laws_satisfiable :
@@ -123,3 +195,16 @@ Theorem C25_stream_nonvacuous :
       (map (fun b => [b]) (concat (wrecs rs))) = (concat nv_writes, EndEOF).
 Proof. exact stream_nonvacuous. Qed.
 Print Assumptions C25_stream_nonvacuous.
+
+(* the no-forgery premise is met by the undamaged wire of a concrete run, which
+   then delivers everything *)
+Theorem C25_tamper_nonvacuous :
+  exists Sm w st2,
+    send_all id_stream id_cbc pad_seal zero_mac nv_state nv_msgs = Some (Sm, w, st2) /\
+    sent_chain id_stream id_cbc pad_seal zero_mac nv_state Sm st2 /\
+    (forall a, In a (flat_map dec_auth (all_calls (recv id_stream id_cbc pad_open zero_mac nv_state w))) ->
+               In a (flat_map (enc_auth pad_seal) (all_calls Sm))) /\
+    map content (authenticated (recv id_stream id_cbc pad_open zero_mac nv_state w)) = map content Sm /\
+    length Sm = 2%nat.
+Proof. exact tamper_nonvacuous. Qed.
+Print Assumptions C25_tamper_nonvacuous.
